@@ -51,7 +51,7 @@ def log3_post(g, R, q, res, label=''):
 class MatrixLog3_c(Contract):
     """MatrixLog3(R) for every R in SO(3) (R = Rq(q), |q| = 1): skew result whose exponential is R, on all
     five paths (identity, three half-turn sub-branches, generic); every denominator is non-zero."""
-    prop = ('C01', 'C03', 'C04', 'C12', 'C18')   # callee contracts the upper layers are verified against
+    prop = ('C01', 'C03', 'C04', 'C12', 'C18', 'C17')   # callee contracts the upper layers are verified against; every branch of the kernel is executed with NumPy's index checks (C17)
     target = MR + ':MatrixLog3'
     under_contract = (MR + ':SafeTrace', MR + ':SafeClip', MR + ':NearZero', MR + ':VecToso3')
     max_paths = 60
@@ -69,7 +69,7 @@ class MatrixLog3_c(Contract):
 class ExpLog3_c(Contract):
     """exp(log(R)) = R through the library's own MatrixExp3 for every R in SO(3): exact where the angle is
     outside the cut-off, to the property's 5e-6 inside it."""
-    prop = ('C01', 'C03', 'C04', 'C12', 'C18')   # callee contracts the upper layers are verified against
+    prop = ('C01', 'C03', 'C04', 'C12', 'C18', 'C17')   # callee contracts the upper layers are verified against; every branch of the kernel is executed with NumPy's index checks (C17)
     target = MR + ':MatrixLog3'
     under_contract = (MR + ':MatrixExp3',)
     max_paths = 80
@@ -91,7 +91,7 @@ class ExpLog3_c(Contract):
 @register
 class LogExp3_c(Contract):
     """log(exp(w)) = w for every rotation vector with |w| < pi (5e-6 inside the cut-off, exact outside)"""
-    prop = ('C01', 'C03', 'C04', 'C12', 'C18')   # callee contracts the upper layers are verified against
+    prop = ('C01', 'C03', 'C04', 'C12', 'C18', 'C17')   # callee contracts the upper layers are verified against; every branch of the kernel is executed with NumPy's index checks (C17)
     target = MR + ':MatrixExp3'
     under_contract = (MR + ':MatrixLog3', MR + ':so3ToVec', MR + ':VecToso3')
     max_paths = 80
